@@ -28,7 +28,8 @@ func init() {
 			"(b) the re-enqueue pairing both solvers need to reach a fixpoint: in the dense solver every changed edge fact re-enqueues that edge's successor, a block is skipped only when it is clean and its input is unchanged, edge facts of unvisited predecessors are never read, the queue's membership bit is cleared on dequeue (R13.3); " +
 			"in the sparse solver the users re-enqueued after a change are those of the value whose state changed, every instruction is initially enqueued (R13.4); " +
 			"(c) the pointwise lifting in MapLattice/DenseMapLattice covers the keys of both operands, uses the element lattice's Merge on common keys, returns the other operand for an empty one and sizes the dense result by the longer operand (R13.5). " +
-			"It does NOT decide termination or leastness on all graphs × transfer functions.",
+			"It does NOT decide termination or leastness on all graphs × transfer functions." +
+			" In the sparse solver every instruction of every block is seeded into the worklist unconditionally (values with a preset state never re-enqueue their users).",
 		RuleText:    "R13.1 enumerates the whole finite table (exhaustive: true for that clause); the other rules are (rule, function::construct) obligations on the SSA CFG",
 		Assumptions: []string{"transfer functions are monotone", "the table is not modified at run time (checked: no store to it)"},
 		Run:         runC13,
